@@ -54,6 +54,8 @@ Definition struct_encoding (o : option encoding) : encoding := enc_or o AsArray.
 Definition variant_encoding (enum_enc : option encoding) (v : variant) : encoding :=
   enc_or (v_enc v) (enc_or enum_enc AsArray).
 
+Definition has_tag (f : field) : bool := match f_tag f with Some _ => true | None => false end.
+
 Definition is_unit (s : dshape) : bool := match s with DsUnit => true | _ => false end.
 Definition is_named (s : dshape) : bool := match s with DsNamed => true | _ => false end.
 
